@@ -76,7 +76,7 @@ def replay_failure(prop, job, fail):
     return verdict, text, path
 
 
-def main(prop, jobs, tier, level_note, not_under_contract=(), bounded_standin=None, extra_assumptions=(), explanation=''):
+def main(prop, jobs, tier, level_note, not_under_contract=(), bounded_standin=None, extra_assumptions=(), explanation='', partial=False):
     t0 = time.time()
     seed = int(os.environ.get('VERIF_SEED', '0') or 0)
     known_ids, fixed = load_known()
@@ -172,8 +172,10 @@ def main(prop, jobs, tier, level_note, not_under_contract=(), bounded_standin=No
         'wall_s': round(wall, 1),
         'violations': len(violations),
     }
-    os.makedirs(os.path.join(VERIF, 'evidence'), exist_ok=True)
-    with open(os.path.join(VERIF, 'evidence', prop + '.json'), 'w') as f:
+    # a run restricted with --only is a debugging run: its (partial) evidence must not replace the property's evidence file
+    evdir = os.path.join(WORK, 'evidence-partial') if partial else os.path.join(VERIF, 'evidence')
+    os.makedirs(evdir, exist_ok=True)
+    with open(os.path.join(evdir, prop + '.json'), 'w') as f:
         json.dump(ev, f, indent=1)
     print('%s tier=%s jobs=%d obligations=%d discharged=%d violations=%d undecided=%d known=%d wall=%.0fs' % (
         prop, tier, len(results), total_obl, total_dis, len(violations), len(undecided), len(known_lines), wall))
